@@ -23,7 +23,7 @@ contract(
         # C07: exactly the greedy sequence. With t = the pick time of result[r] (its position before the final sort): result[r] is the maximiser of an
         # interval a that scores above the threshold and at least as high as every interval not containing an EARLIER pick (strictly higher than
         # such intervals of smaller index: np.argmax takes the first maximum)
-        "greedy": "forall(range(len(result)), lambda r: 0 <= WIT('src', result, r) and WIT('src', result, r) < K and result[r] == maximizers[WIT('src', result, r)] and scores[WIT('src', result, r)] > threshold and forall(range(K), lambda b: implies(forall(range(len(result)), lambda r2: implies(sort_perm(result, r2) < sort_perm(result, r), not (starts[b] <= result[r2] and result[r2] <= ends[b] - 1))), scores[b] <= scores[WIT('src', result, r)] and implies(b < WIT('src', result, r), scores[b] < scores[WIT('src', result, r)]))))",
+        "greedy": "forall(range(len(result)), lambda r: 0 <= WIT('src', result, r) and WIT('src', result, r) < K and result[r] == maximizers[WIT('src', result, r)] and scores[WIT('src', result, r)] > threshold and forall(range(len(result)), lambda r2: implies(sort_perm(result, r2) < sort_perm(result, r), not (starts[WIT('src', result, r)] <= result[r2] and result[r2] <= ends[WIT('src', result, r)] - 1))) and forall(range(K), lambda b: implies(forall(range(len(result)), lambda r2: implies(sort_perm(result, r2) < sort_perm(result, r), not (starts[b] <= result[r2] and result[r2] <= ends[b] - 1))), scores[b] <= scores[WIT('src', result, r)] and implies(b < WIT('src', result, r), scores[b] < scores[WIT('src', result, r)]))))",
     },
     invariants={"loop#1": {
         "len": "len(scores) == K",
@@ -31,6 +31,8 @@ contract(
         # intervals with original score 0 never compete (the picked score exceeds threshold >= 0)
         "I6_greedy": "forall(range(len(cpts)), range(K), lambda q, b: implies(old(scores)[b] != 0 and (scores[b] == old(scores)[b] or g_hit[b] >= q), "
                      "old(scores)[b] <= old(scores)[g_src[q]] and implies(b < g_src[q], old(scores)[b] < old(scores)[g_src[q]])))",
+        # the picked interval itself is alive when picked: it contains no earlier pick
+        "I7_src_alive": "forall(range(len(cpts)), range(len(cpts)), lambda q, r: implies(r < q, not (starts[g_src[q]] <= cpts[r] and cpts[r] <= ends[g_src[q]] - 1)))",
         "I1_zeroed_or_kept": "forall(range(K), lambda i: scores[i] == old(scores)[i] or (scores[i] == 0 and 0 <= g_hit[i] and g_hit[i] < len(cpts) and "
                              "starts[i] <= cpts[g_hit[i]] and cpts[g_hit[i]] <= ends[i] - 1))",
         "I3_containing_are_zero": "forall(range(K), range(len(cpts)), lambda i, q: implies(starts[i] <= cpts[q] and cpts[q] <= ends[i] - 1, scores[i] == 0))",
@@ -49,7 +51,10 @@ contract(
          " and starts[i] <= cpts[sort_inv(cpts, g_hit[i])] and cpts[sort_inv(cpts, g_hit[i])] <= ends[i] - 1 and sort_perm(cpts, sort_inv(cpts, g_hit[i])) == g_hit[i]))\n"
          "assert forall(range(len(cpts)), lambda r: 0 <= sort_perm(cpts, r) and sort_perm(cpts, r) < len(cpts) and cpts[r] == maximizers[g_src[sort_perm(cpts, r)]] and "
          "old(scores)[g_src[sort_perm(cpts, r)]] > threshold)\n"
-         "assume(WIT_DEF('src', cpts, lam('int', len(cpts), lambda r: g_src[sort_perm(cpts, r)])))"),
+         "assume(WIT_DEF('src', cpts, lam('int', len(cpts), lambda r: g_src[sort_perm(cpts, r)])))\n"
+         "assert forall(range(len(cpts)), lambda r2: cpts[r2] == g_un[sort_perm(cpts, r2)] and "
+         "0 <= sort_perm(cpts, r2) and sort_perm(cpts, r2) < len(cpts))"),
+        ("before:cpts.sort()", "g_un = cpts"),
     ],
     props=["C07", "C04"],
 )
@@ -115,7 +120,7 @@ contract(
                            "lambda q: result[3][i] <= result[0][q] and result[0][q] <= result[4][i] - 1)))",
         # exactly the greedy sequence over the returned scores table (pick order = order before the final sort; WIT: the picked interval)
         "cpts_greedy": "forall(range(len(result[0])), lambda r: 0 <= WIT('src', result[0], r) and WIT('src', result[0], r) < len(result[3]) and result[0][r] == result[2][WIT('src', result[0], r)] and "
-                       "result[1][WIT('src', result[0], r)] > threshold and forall(range(len(result[3])), lambda b: implies(forall(range(len(result[0])), lambda r2: implies(sort_perm(result[0], r2) < sort_perm(result[0], r), not (result[3][b] <= result[0][r2] and result[0][r2] <= result[4][b] - 1))), "
+                       "result[1][WIT('src', result[0], r)] > threshold and forall(range(len(result[0])), lambda r2: implies(sort_perm(result[0], r2) < sort_perm(result[0], r), not (result[3][WIT('src', result[0], r)] <= result[0][r2] and result[0][r2] <= result[4][WIT('src', result[0], r)] - 1))) and forall(range(len(result[3])), lambda b: implies(forall(range(len(result[0])), lambda r2: implies(sort_perm(result[0], r2) < sort_perm(result[0], r), not (result[3][b] <= result[0][r2] and result[0][r2] <= result[4][b] - 1))), "
                        "result[1][b] <= result[1][WIT('src', result[0], r)] and implies(b < WIT('src', result[0], r), result[1][b] < result[1][WIT('src', result[0], r)]))))",
     },
     invariants={"loop#1": {
@@ -147,12 +152,13 @@ contract(
         "exhaustive": "forall(range(K), lambda i: implies(scores[i] > threshold, exists(range(len(result)), lambda q: result[q][1] > starts[i] and result[q][0] < ends[i])))",
         # C09: exactly the greedy sequence (pick time = position before the final sort): each reported anomaly is the inner interval of a candidate that
         # scores above the threshold and at least as high as every candidate not overlapping an EARLIER pick (first maximum on ties)
-        "greedy": "forall(range(len(result)), lambda r: 0 <= WIT('src', result, r) and WIT('src', result, r) < K and result[r][0] == anomaly_starts[WIT('src', result, r)] and result[r][1] == anomaly_ends[WIT('src', result, r)] and scores[WIT('src', result, r)] > threshold and forall(range(K), lambda b: implies(forall(range(len(result)), lambda r2: implies(sort_perm(result, r2) < sort_perm(result, r), not (result[r2][1] > starts[b] and result[r2][0] < ends[b]))), scores[b] <= scores[WIT('src', result, r)] and implies(b < WIT('src', result, r), scores[b] < scores[WIT('src', result, r)]))))",
+        "greedy": "forall(range(len(result)), lambda r: 0 <= WIT('src', result, r) and WIT('src', result, r) < K and result[r][0] == anomaly_starts[WIT('src', result, r)] and result[r][1] == anomaly_ends[WIT('src', result, r)] and scores[WIT('src', result, r)] > threshold and forall(range(len(result)), lambda r2: implies(sort_perm(result, r2) < sort_perm(result, r), not (result[r2][1] > starts[WIT('src', result, r)] and result[r2][0] < ends[WIT('src', result, r)]))) and forall(range(K), lambda b: implies(forall(range(len(result)), lambda r2: implies(sort_perm(result, r2) < sort_perm(result, r), not (result[r2][1] > starts[b] and result[r2][0] < ends[b]))), scores[b] <= scores[WIT('src', result, r)] and implies(b < WIT('src', result, r), scores[b] < scores[WIT('src', result, r)]))))",
     },
     invariants={"loop#1": {
         "len": "len(scores) == K",
         "I6_greedy": "forall(range(len(anomalies)), range(K), lambda q, b: implies(old(scores)[b] != 0 and (scores[b] == old(scores)[b] or g_hit[b] >= q), "
                      "old(scores)[b] <= old(scores)[g_src[q]] and implies(b < g_src[q], old(scores)[b] < old(scores)[g_src[q]])))",
+        "I7_src_alive": "forall(range(len(anomalies)), range(len(anomalies)), lambda q, r: implies(r < q, not (anomalies[r][1] > starts[g_src[q]] and anomalies[r][0] < ends[g_src[q]])))",
         "I1_zeroed_or_kept": "forall(range(K), lambda i: scores[i] == old(scores)[i] or (scores[i] == 0 and 0 <= g_hit[i] and g_hit[i] < len(anomalies) and "
                              "anomalies[g_hit[i]][1] > starts[i] and anomalies[g_hit[i]][0] < ends[i]))",
         "I3_overlapping_are_zero": "forall(range(K), range(len(anomalies)), lambda i, q: implies(anomalies[q][1] > starts[i] and anomalies[q][0] < ends[i], scores[i] == 0))",
@@ -174,7 +180,10 @@ contract(
          "assert forall(range(len(anomalies)), lambda r: 0 <= sort_perm(anomalies, r) and sort_perm(anomalies, r) < len(anomalies) and "
          "anomalies[r][0] == anomaly_starts[g_src[sort_perm(anomalies, r)]] and anomalies[r][1] == anomaly_ends[g_src[sort_perm(anomalies, r)]] and "
          "old(scores)[g_src[sort_perm(anomalies, r)]] > threshold)\n"
-         "assume(WIT_DEF('src', anomalies, lam('int', len(anomalies), lambda r: g_src[sort_perm(anomalies, r)])))"),
+         "assume(WIT_DEF('src', anomalies, lam('int', len(anomalies), lambda r: g_src[sort_perm(anomalies, r)])))\n"
+         "assert forall(range(len(anomalies)), lambda r2: anomalies[r2][0] == g_un[sort_perm(anomalies, r2)][0] and anomalies[r2][1] == g_un[sort_perm(anomalies, r2)][1] and "
+         "0 <= sort_perm(anomalies, r2) and sort_perm(anomalies, r2) < len(anomalies))"),
+        ("before:anomalies.sort()", "g_un = anomalies"),
     ],
     props=["C09", "C04"],
 )
@@ -252,7 +261,7 @@ contract(
         # exactly the greedy sequence over the returned scores table: each anomaly is the listed inner interval of the candidate WIT, which scores above the
         # threshold and at least as high as every candidate not overlapping an earlier pick
         "anomalies_greedy": "forall(range(len(result[0])), lambda r: 0 <= WIT('src', result[0], r) and WIT('src', result[0], r) < len(result[3]) and result[0][r][0] == result[2][WIT('src', result[0], r), 0] and "
-                            "result[0][r][1] == result[2][WIT('src', result[0], r), 1] and result[1][WIT('src', result[0], r)] > threshold and forall(range(len(result[3])), lambda b: implies(forall(range(len(result[0])), lambda r2: implies(sort_perm(result[0], r2) < sort_perm(result[0], r), not (result[0][r2][1] > result[3][b] and result[0][r2][0] < result[4][b]))), "
+                            "result[0][r][1] == result[2][WIT('src', result[0], r), 1] and result[1][WIT('src', result[0], r)] > threshold and forall(range(len(result[0])), lambda r2: implies(sort_perm(result[0], r2) < sort_perm(result[0], r), not (result[0][r2][1] > result[3][WIT('src', result[0], r)] and result[0][r2][0] < result[4][WIT('src', result[0], r)]))) and forall(range(len(result[3])), lambda b: implies(forall(range(len(result[0])), lambda r2: implies(sort_perm(result[0], r2) < sort_perm(result[0], r), not (result[0][r2][1] > result[3][b] and result[0][r2][0] < result[4][b]))), "
                             "result[1][b] <= result[1][WIT('src', result[0], r)] and implies(b < WIT('src', result[0], r), result[1][b] < result[1][WIT('src', result[0], r)]))))",
     },
     invariants={"loop#1": {
